@@ -146,8 +146,8 @@ def make_probes(bounds, rng, max_cells=400):
             lat.append(ulp_shift(cy, oy))
     lon.append((bb[:, 0] + bb[:, 2]) / 2)
     lat.append((bb[:, 1] + bb[:, 3]) / 2)
-    extra_lon = numpy.array([-180.0, 180.0, numpy.nextafter(180.0, 0), 0.0, -0.0, 179.99999999999997, -180.0, 0.0, 90.0, 200.0, -181.0])
-    extra_lat = numpy.array([0.0, 0.0, 0.0, LAT_LIM, -LAT_LIM, numpy.nextafter(LAT_LIM, 0), numpy.nextafter(-LAT_LIM, 0), 0.0, 86.0, 0.0, 0.0])
+    extra_lon = numpy.array([-180.0, 180.0, numpy.nextafter(180.0, 0), 0.0, -0.0, 179.99999999999997, -180.0, 0.0, 90.0, 200.0, -181.0, 180.0, 180.0, 180.0, 360.0, 190.0])
+    extra_lat = numpy.array([0.0, 0.0, 0.0, LAT_LIM, -LAT_LIM, numpy.nextafter(LAT_LIM, 0), numpy.nextafter(-LAT_LIM, 0), 0.0, 86.0, 0.0, 0.0, 45.0, -60.0, 10.5, 0.0, 20.0])
     lon.append(extra_lon)
     lat.append(extra_lat)
     lon.append(rng.uniform(-180, 180, 200))
@@ -191,7 +191,9 @@ def check_lookup(ctx, reg, rc, tags, rng, tiling):
                 ob, ex = {"returned": int(got.size)}, {"queried": int(sub.size), "cell0_points": int((first[sub] == 0).sum())}
             ctx.violate("array lookup does not return the containing cell of every point", rc, observed=ob, expected=ex, tags=dict(tags, clause="lookup-array"))
     # scalar / single-element queries, inside and outside
-    for k in numpy.concatenate([ins[rng.permutation(ins.size)[:60]], out[:40], numpy.nonzero(first == 0)[0][:5]]).astype(int):
+    special = numpy.nonzero(numpy.isin(lon, [-180.0, 180.0, 0.0]) | (numpy.abs(lat) == LAT_LIM) | (lon >= 180.0) | (lon < -180.0))[0]
+    special = special[rng.permutation(special.size)[:60]]
+    for k in numpy.concatenate([ins[rng.permutation(ins.size)[:60]], out[rng.permutation(out.size)[:40]], special, numpy.nonzero(first == 0)[0][:5]]).astype(int):
         x, y = float(lon[k]), float(lat[k])
         for form in ("scalar", "list1"):
             ok, g, tb = ctx.call(reg.get_index_of, x, y) if form == "scalar" else ctx.call(reg.get_index_of, [x], [y])
